@@ -729,4 +729,3 @@ func replay(c *core.Ctx, raw json.RawMessage) {
 		}
 	}
 }
-
